@@ -89,6 +89,14 @@ def _b_parents(P, R):
                 continue
             a = pv.deep_atoms(arm["body"])
             lossy = sorted({c["method"] for c in subnodes(arm["body"]) if c.get("k") == "MethodCall" and c["method"] in TRUNCATING})
+            # the possible runtime types of a parent are a fact of the schema: a filter on them that looks at the *selection set* drops types by what is selected
+            sel_params = {pv.params.get(p.get("local")) for p in g0.params if p.get("k") == "Binding" and "SelectionSet" in str(p.get("t", ""))}
+            by_selection = sorted({c["method"] for c in subnodes(arm["body"]) if c.get("k") == "MethodCall" and c["method"] in ("filter", "filter_map", "retain", "take_while", "skip_while")
+                                   and c["args"] and any(("param", sp) in pv.atoms(c["args"][0]) for sp in sel_params if sp)})
+            if by_selection:
+                R.violated("R01-b", "parents:" + kind, "for a %s parent the candidate runtime types are cut down by a test on the selection set (%s): a type that nothing in the "
+                           "selection applies to still occurs at run time (its response is the empty object / `__typename` only) and then has no branch" % (kind, by_selection), loc=g0.loc())
+                continue
             if kind == "Interface":
                 ok = has_call(a, need) or has_field(a, TSD + "ObjectDefinition", "interfaces")
             elif kind == "Union":
